@@ -189,6 +189,10 @@ func judgeNames(r *mon.Rec, idx int) {
 	var names2 []string
 	pan, val, st := mon.Guard(func() {
 		l := &rfc1035label.Labels{Labels: append([]string{}, names...)}
+		if idx%2 == 0 { // the exported constructor gives an empty set to append to
+			l = rfc1035label.NewLabels()
+			l.Labels = append(l.Labels, names...)
+		}
 		enc = l.ToBytes()
 		back, err = rfc1035label.FromBytes(enc)
 		// the same hand-built set, read (Length, ToBytes, String) and then changed in place: it is a list of names like
